@@ -97,7 +97,9 @@ def _rewrite(draw, spec):
 @st.composite
 def _case(draw, ctx):
     c0 = draw(S.circuit_spec(min_inputs=1, max_inputs=4, min_gates=1, max_gates=8, max_fanin=4,
-                             io_outputs=True))
+                             io_outputs=True,
+                             # names that look like the ones encoders / the miter derive from node names
+                             pools=(S.BENIGN, S.TOOLLIKE) if draw(st.integers(0, 2)) == 0 else (S.BENIGN,)))
     mode = draw(st.sampled_from(["copy", "rewrite", "rewrite", "mutate", "mutate", "indep", "self"]))
     if mode == "self":
         c1 = None
@@ -193,7 +195,15 @@ def check(case, ctx):
         kw["endpoints"] = conv(case["end"])
     snap0 = refsim.snapshot(c0)
     kw_before = {k_: (sorted(v_) if not isinstance(v_, (list, tuple)) else list(v_)) for k_, v_ in kw.items()}
-    m = need(lib(cg.tx.miter, c0, c1, **kw), "miter", f"miter(c0, c1, startpoints={case['start']}, endpoints={case['end']}, as {form})")
+    out_m = lib(cg.tx.miter, c0, c1, **kw)
+    # the miter names its nodes c0_<n>, c1_<n>, <startpoint>, dif_<endpoint> and sat: when two of these
+    # coincide (a design with nodes `a` and `c0_a`, a node called `sat` ...) a ValueError is a clean
+    # rejection of a real clash of generated names, not a wrong miter
+    gen = [f"c0_{n_}" for n_ in c0.graph.nodes] + [f"c1_{n_}" for n_ in (c1 if c1 is not None else c0).graph.nodes]
+    gen += sorted(tied) + [f"dif_{e_}" for e_ in sorted(comp)] + ["sat"]
+    if not out_m.ok and isinstance(out_m.exc, ValueError) and len(set(gen)) != len(gen):
+        return {"nontrivial": False, "labels": ["rejected_generated_name_clash"]}
+    m = need(out_m, "miter", f"miter(c0, c1, startpoints={case['start']}, endpoints={case['end']}, as {form})")
     if refsim.snapshot(c0) != snap0:
         raise Violation("miter|mutates_argument", "miter modified c0")
     for k_, v_ in kw.items():
